@@ -124,9 +124,13 @@ func selftestSensitivity(args []string) int {
 			if expect >= 0 && code != expect {
 				status = "UNEXPECTED"
 				bad++
-				if meta.Expect == "documented-miss" && p == meta.Property && code == 0 {
-					// a seeded change the quick tier is known not to catch (DESIGN 13.5/13.6): reported, not counted
+				if meta.Expect == "documented-miss" && p == meta.Property && (code == 0 || code == 2) {
+					// a seeded change the quick tier is known not to catch (DESIGN 13.5/13.6): reported, not counted;
+					// exit 2 = the check ended with a harness error on the changed tree (no verdict, also not a catch)
 					status = "documented miss"
+					if code == 2 {
+						status = "documented miss, harness error"
+					}
 					bad--
 				}
 			}
